@@ -19,6 +19,24 @@ def run(tier, seed):
     q = tier == 'quick'
     stage_main.run_rows(chk)
     cases = [dict(id=i, seed=rng.randrange(10 ** 9)) for i in range(640 if q else 16000)]
+    # a fixed grid of option combinations around the constructors that validate several options together
+    W = ['-w', '5,0,0,5,0,0,15,0.001', '--excitation-pulse=3']
+    grid = []
+    for med in ([], ['--medium=0,0,0'], ['--medium=13,0.005,0'], ['--medium=13,0.005,0,10', '--medium=5,0.001,-1'],
+                ['--medium=13,0.005,0,10', '--medium=5,0.001,-1', '--boundary=circular']):
+        for cnt in (None, '-1', '0', '8'):
+            for rad in (None, '0', '-1', '0.001', 'inf'):
+                grid.append(W + med + ([] if cnt is None else ['--radial-count=' + cnt]) + ([] if rad is None else ['--radial-radius=' + rad]))
+    for a in (['--insulation-load=0.002,2.5'], ['--insulation-load=0.0005,2.5'], ['--insulation-load=0.002,2.5', '--insulation-load=0.003,2'],
+              ['--skin-effect-conductivity=1e6', '--skin-effect-resistivity=1e-6'], ['--skin-effect-conductivity=1e6,1', '--skin-effect-conductivity=2e6,1']):
+        grid.append(W + a)
+    for k1 in ('1', '1.0', '0'):
+        for k2 in ('1', '2'):
+            grid.append(W + ['--geo-rotate=%s,0,0,90' % k1, '--geo-translate=%s,0,0,2' % k2])
+            grid.append(W + ['--geo-translate=%s,1,0,0' % k1, '--geo-translate=%s,0,0,2' % k2])
+            grid.append(W + ['--geo-rotate=%s,10,0,0' % k1, '--geo-rotate=%s,0,0,20' % k2])
+    for k, a in enumerate(grid):
+        cases.append(dict(id=10 ** 6 + k, seed=0, argv=a, what=['grid']))
     shards = [cases[k::NCPU] for k in range(NCPU) if cases[k::NCPU]]
     res = run_workers('mainf.c20', [dict(cases=s) for s in shards], timeout=6000)
     kinds = {}; n = 0
